@@ -602,6 +602,13 @@ def call_key(ctx, r):
                     continue
                 keyexpr = x["args"][0] if is_lookup else (x["i"] if is_index else x["args"][3])
                 kb = _key_base(keyexpr) if not is_writer else _key_base({"k": "MethodCall", "m": "id", "args": [], "recv": keyexpr})
+                if kb is None:
+                    # the id itself handed down as a parameter (`call_id: NodeId`)
+                    k0 = keyexpr
+                    while k0["k"] in ("Ref", "Unary", "Paren"):
+                        k0 = k0["e"]
+                    if k0["k"] == "Path" and k0["p"] in params:
+                        kb = k0["p"]
                 inner = [(b, a) for b, a in arms if any(y is x for y in q.walk(a["body"]))]
                 where = f"{short}:{f['name']}"
                 if is_writer:
@@ -635,8 +642,16 @@ def call_key(ctx, r):
                     if "FuncCall" not in [q.last_seg(h) for h in q.pat_heads(a["pat"])] or not base:
                         continue
                     for c in q.walk(a["body"]):
-                        if c["k"] == "MethodCall" and c["m"] == hname and len(c["args"]) > idx:
+                        is_m = c["k"] == "MethodCall" and c["m"] == hname
+                        is_f = c["k"] == "Call" and c["f"]["k"] == "Path" and q.last_seg(c["f"]["p"]) == hname
+                        if (is_m or is_f) and len(c["args"]) > idx:
                             got = q.show(c["args"][idx]).lstrip("&").replace(".clone()", "")
+                            got = _key_base(c["args"][idx]) or got  # the node, or its id
+                            a0 = q.strip_refs(c["args"][idx])
+                            while a0["k"] == "MethodCall" and a0["m"] in ("node", "clone") and not a0["args"]:
+                                a0 = q.strip_refs(a0["recv"])
+                            if a0["k"] == "Path":
+                                got = a0["p"]
                             r.ob(got == base, f"{file.split('/')[-1]}:{g['name']}:{hname}:call-expression-not-handed-over", file, c["l"],
                                  f"{g['name']}: `{hname}` reads the reorder table under its parameter #{idx}; this call passes `{got}`, not the call expression `{base}`",
                                  sample=f"{g['name']}: {hname}({base}, ..)")
@@ -651,9 +666,16 @@ def arg_misuse(ctx, r):
         r.missing("resolve.rs")
         return
     f = q.find_fn(items, "calculate_func_call_order")
-    g = q.find_fn(items, "calculate_named_arg_order")
+    # the reorder step: the function of this file that the entry point calls and that looks argument names up in the parameter index
+    g = None
+    if f is not None:
+        for c in q.walk(f["body"]):
+            if c["k"] == "Call" and c["f"]["k"] == "Path":
+                cand = q.find_fn(items, q.last_seg(c["f"]["p"]))
+                if cand is not None and cand.get("body") is not None and cand is not f and any(x["k"] == "MethodCall" and x["m"] in ("try_get_id", "get_id") for x in q.walk(cand["body"])):
+                    g = cand
     if f is None or g is None:
-        r.missing("calculate_func_call_order / calculate_named_arg_order", RES)
+        r.missing("calculate_func_call_order / its reorder step", RES)
         return
 
     def pushes_error(node):
@@ -687,7 +709,16 @@ def arg_misuse(ctx, r):
     r.ob(surplus, "resolve.rs:calculate_func_call_order:surplus-argument-dropped", RES, f["l"],
          "a positional argument beyond the callee's parameters falls through without a diagnostic; calculate_named_arg_order then drops it silently (`g(1, 2)` for a one-parameter function is accepted)",
          sample="surplus positional argument: diagnostic")
-    missing = any(x["k"] == "If" and "missing" in q.show(x["c"]) and pushes_error(x["t"]) and any(y["k"] == "Return" for y in q.walk(x["t"])) for x in q.walk(f["body"]))
+    # the order is recorded exactly when nothing is missing, and the other case is reported (whatever the control-flow spelling)
+    missing = False
+    ins = [x for x in q.walk(f["body"]) if x["k"] == "MethodCall" and x["m"] == "insert" and q.show(x["recv"]).endswith("function_call_arg_order")]
+    for i_ in ins:
+        at = [(q.show(c_).replace(" ", ""), pol) for c_, pol in q.cond_atoms(q.path_conds(f["body"], i_) or []) if "missing" in q.show(c_)]
+        for e_ in q.walk(f["body"]):
+            if e_["k"] == "MethodCall" and e_["m"] == "push" and q.show(e_["recv"]).endswith(".errors"):
+                ea = [(q.show(c_).replace(" ", ""), pol) for c_, pol in q.cond_atoms(q.path_conds(f["body"], e_) or [])]
+                if any((c_, not pol) in ea for c_, pol in at):
+                    missing = True
     r.ob(missing, "resolve.rs:calculate_func_call_order:missing-required", RES, f["l"], "missing required arguments must be reported and the call order not computed", sample="missing required argument: diagnostic, early return")
     # the reorder step: the slot of a named argument comes from a non-panicking lookup of its name; positional -> its position; defaults fill only empty slots; read out in slot order
     panicking = [x for x in q.walk(g["body"]) if x["k"] == "MethodCall" and x["m"] == "get_id" and "name" in q.show(x["args"][0])]
@@ -858,6 +889,12 @@ def epilogue(ctx, r):
     tb = q.find_fn(items, "translate_func_body_helper", impl_ty="Translator")
     ast_items = ctx.file_items(TB)
     fk = q.find_enum(ast_items, "FuncKind")
+    if tb is not None:
+        # helpers of this file that emit part of the body's frame code (an extracted epilogue) are read in place
+        from lib.inline import materialize, emits_code
+
+        tb = dict(tb)
+        tb["body"] = materialize(tb["body"], closures_only=False, pred=lambda inl: inl.get("callee") not in ("translate_expr", "translate_stmt", "emit", "get_ty") and any(y["k"] == "Path" and y.get("p") in ("Instr::Return", "Instr::ReturnVoid", "Instr::Stop") for y in q.walk(inl["body"])))
     if tb is None or fk is None:
         r.missing("translate_func_body_helper / enum FuncKind", TB)
     else:
@@ -1117,6 +1154,13 @@ def capture_walk(ctx, r):
     if ic is None:
         r.missing("SymbolTableBase::is_captured", RES)
         return
+    # the flag that marks a scope as a lambda/task boundary: the bool field of the scope record
+    stb = q.find_struct(items, "SymbolTableBase")
+    bools = [fl["name"] for fl in (stb["fields"] if stb else []) if fl["ty"].strip() == "bool"]
+    if len(bools) != 1:
+        r.missing("SymbolTableBase: the boundary flag (one bool field)", RES)
+        return
+    BOUNDARY = bools[0]
 
     def calls_to(fn, names):
         return [x for x in q.walk(fn["body"]) if x["k"] == "MethodCall" and x["m"] in names]
@@ -1143,9 +1187,9 @@ def capture_walk(ctx, r):
     if not bool_params:
         # form A: the boundary decides at once - a closure scope asks whether the name exists anywhere further out
         r.ob(found_ret == ["false"], f"resolve.rs:{wname}:declared-inside-is-not-captured", RES, local_found[0]["l"], f"{wname}: a name declared in a scope reached before any lambda/task boundary is not captured (returns {found_ret})", sample=f"{wname}: found before a boundary -> false")
-        gates = [x for x in q.walk(walker["body"]) if x["k"] == "If" and q.show(x["c"]).replace(" ", "").strip("()").lstrip("!").strip("()") == "self.is_closure_scope"]
+        gates = [x for x in q.walk(walker["body"]) if x["k"] == "If" and q.show(x["c"]).replace(" ", "").strip("()").lstrip("!").strip("()") == "self." + BOUNDARY]
         ok = False
-        detail = "no `if self.is_closure_scope`"
+        detail = f"no `if self.{BOUNDARY}`"
         if gates:
             g = gates[0]
             negated = q.show(g["c"]).replace(" ", "").strip("()").startswith("!")
@@ -1166,7 +1210,7 @@ def capture_walk(ctx, r):
         for x in rec:
             a = x["args"][idx] if idx < len(x["args"]) else None
             ids = q.idents_in(a) if a is not None else set()
-            joined = a is not None and P in ids and any(y["k"] == "Binary" and y["op"] == "||" for y in q.walk(a)) and "is_closure_scope" in q.show(a)
+            joined = a is not None and P in ids and any(y["k"] == "Binary" and y["op"] == "||" for y in q.walk(a)) and BOUNDARY in q.show(a)
             r.ob(joined, f"resolve.rs:{wname}:boundary-forgotten", RES, x["l"],
                  f"{wname}: the recursive call passes `{q.show(a) if a is not None else '?'}` as the crossed-a-boundary flag; it must be `{P} || self.is_closure_scope` - otherwise every plain block scope between the lambda and the declaration resets the flag and the assignment is accepted (and lost at run time)",
                  sample=f"{wname}: flag passed on as {q.show(a) if a is not None else '?'}")
@@ -1548,3 +1592,58 @@ def decl_value(ctx, r):
                      f"{f['name']}: a name that resolves to {sorted(set(heads))} gets no type and no diagnostic, so the expression stays unconstrained and unifies with whatever its context expects: `type Color = Red | Blue  let x: int = Color` is accepted, the generator emits nothing for it and the VM stores into a slot that was never pushed",
                      sample=f"{f['name']}: {sorted(set(heads))} in value position is reported")
     r.count("declaration kinds without a value", n, 2, TCF)
+
+
+@rule("LAST-FLAG", ["C11", "C02", "C01"], "the flag that tells the statement lowering 'this is the last statement, keep its value' is computed against the sequence actually being lowered: same sequence for index and length, no element skipped inside the loop")
+def last_flag(ctx, r):
+    items = ctx.file_items(TB)
+    if items is None:
+        r.missing(TB)
+        return
+    n = 0
+    for f in q.find_fns(items, impl_ty="Translator"):
+        if f.get("body") is None:
+            continue
+        lens = {}
+        for l_ in q.walk(f["body"]):
+            if l_["k"] == "Local" and l_.get("init") is not None and l_["init"]["k"] == "MethodCall" and l_["init"]["m"] == "len" and not l_["init"]["args"]:
+                for b in q.pat_bindings(l_["pat"]):
+                    lens[b] = q.show(q.strip_refs(l_["init"]["recv"]))
+        for lp in q.walk(f["body"]):
+            if lp["k"] != "For" or lp["pat"].get("k") != "PTuple" or len(lp["pat"]["elems"]) != 2:
+                continue
+            it = lp["e"]
+            if not (it["k"] == "MethodCall" and it["m"] == "enumerate"):
+                continue
+            ivar = q.pat_bindings(lp["pat"]["elems"][0])
+            if len(ivar) != 1:
+                continue
+            ivar = ivar[0]
+            src = it["recv"]
+            plain = src["k"] == "MethodCall" and src["m"] in ("iter", "into_iter") and not src["args"]
+            seq = q.show(q.strip_refs(src["recv"])) if plain else q.show(src)
+            for c in q.walk(lp["body"]):
+                if not (c["k"] == "MethodCall" and c["m"] == "translate_stmt" and len(c["args"]) >= 2):
+                    continue
+                flag = c["args"][1]
+                while flag["k"] == "Paren":
+                    flag = flag["e"]
+                if not (flag["k"] == "Binary" and flag["op"] == "==" and ivar in q.idents_in(flag)):
+                    continue
+                n += 1
+                other = flag["b"] if ivar in q.idents_in(flag["a"]) else flag["a"]
+                # the length the index is compared with: `<seq>.len()` written in place or through a local
+                of = None
+                for y in q.walk(other):
+                    if y["k"] == "MethodCall" and y["m"] == "len" and not y["args"]:
+                        of = q.show(q.strip_refs(y["recv"]))
+                    if y["k"] == "Path" and y["p"] in lens:
+                        of = lens[y["p"]]
+                order = {id(x): k_ for k_, x in enumerate(q.walk(lp["body"]))}
+                skips = [x for x in q.walk(lp["body"]) if x["k"] == "Continue" and order[id(x)] < order[id(c)]]
+                ok = plain and of == seq and not skips
+                why = "the loop skips elements before the call (`continue`)" if skips else (f"the index runs over `{seq}` but is compared with the length of `{of}`" if of != seq else f"the sequence is filtered between `{seq}` and the index")
+                r.ob(ok, f"translate_bytecode.rs:{f['name']}:last-statement-flag", TB, c["l"],
+                     f"{f['name']}: `{q.show(flag)}` marks the last statement so that its value is kept as the result; {why}, so when the last *lowered* statement is not the last element (a function definition after the final expression of the main file) its value is popped and the program's result is whatever lies below",
+                     sample=f"{f['name']}: last-statement flag `{q.show(flag)}` over `{seq}`")
+    r.count("last-statement flags", n, 2, TB)
